@@ -59,8 +59,7 @@ func (info *decodeInfo) decodeCharString(code []byte, name string) (*Glyph, erro
 	res := &Glyph{}
 
 	var posX, posY float64
-	var LsbX funit.Int16 // TODO(voss): use float64
-	var LsbY funit.Int16
+	var LsbX, LsbY float64
 	isClosed := true
 	rClosePath := func() {
 		res.Cmds = append(res.Cmds, GlyphOp{Op: OpClosePath})
@@ -184,7 +183,7 @@ glyphLoop:
 				// fmt.Printf("hsbw(%g, %g)\n", stack[0], stack[1])
 				posX = stack[0]
 				posY = 0
-				LsbX = funit.Int16(math.Round(stack[0]))
+				LsbX = stack[0]
 				LsbY = 0
 				res.WidthX = stack[1]
 				res.WidthY = 0
@@ -221,8 +220,8 @@ glyphLoop:
 				// fmt.Printf("sbw(%g, %g, %g, %g)\n", stack[0], stack[1], stack[2], stack[3])
 				posX = stack[0]
 				posY = stack[1]
-				LsbX = funit.Int16(math.Round(stack[0]))
-				LsbY = funit.Int16(math.Round(stack[1]))
+				LsbX = stack[0]
+				LsbY = stack[1]
 				res.WidthX = stack[2]
 				res.WidthY = stack[3]
 				clearStack()
@@ -302,8 +301,8 @@ glyphLoop:
 					return nil, errIncomplete
 				}
 				// fmt.Printf("hstem(%g, %g)\n", stack[0], stack[1])
-				a := LsbY + funit.Int16(math.Round(stack[0]))
-				b := a + funit.Int16(math.Round(stack[1]))
+				a := funit.Int16(math.Round(LsbY + stack[0]))
+				b := funit.Int16(math.Round(LsbY + stack[0] + stack[1]))
 				res.HStem = append(res.HStem, a, b)
 				clearStack()
 			case t1hstem3:
@@ -311,12 +310,12 @@ glyphLoop:
 					return nil, errIncomplete
 				}
 				// fmt.Printf("hstem3(%g, %g, %g, %g, %g, %g)\n", stack[0], stack[1], stack[2], stack[3], stack[4], stack[5])
-				a := LsbY + funit.Int16(math.Round(stack[0]))
-				b := a + funit.Int16(math.Round(stack[1]))
-				c := LsbY + funit.Int16(math.Round(stack[2]))
-				d := c + funit.Int16(math.Round(stack[3]))
-				e := LsbY + funit.Int16(math.Round(stack[4]))
-				f := e + funit.Int16(math.Round(stack[5]))
+				a := funit.Int16(math.Round(LsbY + stack[0]))
+				b := funit.Int16(math.Round(LsbY + stack[0] + stack[1]))
+				c := funit.Int16(math.Round(LsbY + stack[2]))
+				d := funit.Int16(math.Round(LsbY + stack[2] + stack[3]))
+				e := funit.Int16(math.Round(LsbY + stack[4]))
+				f := funit.Int16(math.Round(LsbY + stack[4] + stack[5]))
 				res.HStem = append(res.HStem[:0], a, b, c, d, e, f)
 				clearStack()
 			case t1vstem:
@@ -324,8 +323,8 @@ glyphLoop:
 					return nil, errIncomplete
 				}
 				// fmt.Printf("vstem(%g, %g)\n", stack[0], stack[1])
-				a := LsbX + funit.Int16(math.Round(stack[0]))
-				b := a + funit.Int16(math.Round(stack[1]))
+				a := funit.Int16(math.Round(LsbX + stack[0]))
+				b := funit.Int16(math.Round(LsbX + stack[0] + stack[1]))
 				res.VStem = append(res.VStem, a, b)
 				clearStack()
 			case t1vstem3:
@@ -333,12 +332,12 @@ glyphLoop:
 					return nil, errIncomplete
 				}
 				// fmt.Printf("vstem3(%g, %g, %g, %g, %g, %g)\n", stack[0], stack[1], stack[2], stack[3], stack[4], stack[5])
-				a := LsbX + funit.Int16(math.Round(stack[0]))
-				b := a + funit.Int16(math.Round(stack[1]))
-				c := LsbX + funit.Int16(math.Round(stack[2]))
-				d := c + funit.Int16(math.Round(stack[3]))
-				e := LsbX + funit.Int16(math.Round(stack[4]))
-				f := e + funit.Int16(math.Round(stack[5]))
+				a := funit.Int16(math.Round(LsbX + stack[0]))
+				b := funit.Int16(math.Round(LsbX + stack[0] + stack[1]))
+				c := funit.Int16(math.Round(LsbX + stack[2]))
+				d := funit.Int16(math.Round(LsbX + stack[2] + stack[3]))
+				e := funit.Int16(math.Round(LsbX + stack[4]))
+				f := funit.Int16(math.Round(LsbX + stack[4] + stack[5]))
 				res.VStem = append(res.VStem[:0], a, b, c, d, e, f)
 				clearStack()
 			case t1div:
